@@ -9,6 +9,13 @@ class ToGFA1:
         "Conversion to GFA1 failed\n"+
         "The path name is a placeholder\t"+
         "Line: {}".format(self))
+    try:
+      gfapy.Field._validate_gfa_field(self.name, "path_name_gfa1")
+    except gfapy.Error as err:
+      raise gfapy.RuntimeError(
+        "Conversion to GFA1 failed\n"+
+        "Group name not compatible with GFA1\n"+
+        "Line: {}\n{}".format(self, err))
     a.append(self.name)
     segment_names = []
     for oline in self.captured_segments:
